@@ -664,6 +664,34 @@ def carry_chain_points(c, r, how_many=6):
     return out
 
 
+def carry_chain_on_curve(c, r, cubic=True):
+    """A point ON a Weierstrass curve with a carry-chain coordinate (see carry_chain_points): -> (side, (x, y)) or None."""
+    from ref import primes
+    import math as _m
+    p = c.p
+    nw = (p.bit_length() + 63) // 64
+    Rinv = pow(1 << (64 * nw), -1, p)
+    top = ((p * p).bit_length() - 1) // 64
+    ones = (1 << 64) - 1
+    for _attempt in range(30):
+        T = r.randrange(p * p)
+        for w in ([w for w in range(nw, top) if r.random() < 0.5] or [r.randrange(nw, top)]):
+            T |= ones << (64 * w)
+        V = _m.isqrt(T)
+        if not 1 < V < p:
+            continue
+        v = V * Rinv % p
+        if cubic and r.random() < 0.5:
+            x = _cubic_root(p, c.a, c.b - v * v, r)
+            if x is not None:
+                return "y", (x, v)
+        else:
+            y = primes.sqrt_mod((v * v * v + c.a * v + c.b) % p, p)
+            if y is not None:
+                return "x", (v, y)
+    return None
+
+
 def ecc_cases(c, r):
     """(label, kwargs without curve, valid, what, statement class)"""
     from ref import ec
@@ -722,6 +750,9 @@ def ecc_cases(c, r):
         for lab, P in near_miss_points(c, r):
             if not ec.w_on_curve(c, P):
                 out.append(("off-curve/near-miss-" + lab, dict(point_x=P[0], point_y=P[1]), X, "point-off-curve", OC))
+        cc = carry_chain_on_curve(c, r)
+        if cc is not None and ec.w_on_curve(c, cc[1]):
+            out.append(("valid/point-carry-chain-" + cc[0], dict(point_x=cc[1][0], point_y=cc[1][1]), V, None, None))
         for lab, P in carry_chain_points(c, r, how_many=6 if c.bits <= 384 else 2):
             if not ec.w_on_curve(c, P):
                 out.append(("off-curve/lost-carry-" + lab, dict(point_x=P[0], point_y=P[1]), X, "point-off-curve", OC))
